@@ -5,10 +5,18 @@ Open Scope Z_scope.
 Definition run_limits_json (data : bytes) : option (list bytes) :=
   match limits_json (@rev entry) data with Ret l => Some l | _ => None end.
 
-(* E cases: cert_subject of each module after folding the evil-json certificates (the HashMap iterated in
-   reverse order of the case, then sorted by the code) *)
+(* E cases: cert_subject of each module after folding the evil-json certificates: the members of the JSON object in file order
+   (a repeated name replaces the earlier member), the resulting HashMap iterated in reverse order, then sorted by the code *)
+From RM Require Import C13.Unloaded.
 Definition run_certs (certs : list (bytes * list bytes)) (mods : list bytes) : list (option bytes) :=
-  map (cert_of bytes_eqb bytes_ltb (rev certs)) mods.
+  map (cert_pipeline (@rev _) certs) mods.
+
+(* U cases: frames[0].unloaded_modules of a thread whose instruction pointer is [addr], for each address: the stream as the
+   reader accepts it (all or nothing), the overlapping
+   unloaded modules visited in REVERSE list order (any order gives the same map: c13_unloaded_offsets_order_independent) *)
+Definition run_unloaded (mods : list ((bytes * Z) * Z)) (addrs : list Z) : list (option (list (bytes * list Z))) :=
+  let l := unloaded_list_read (map (fun e : (bytes * Z) * Z => {| u_name := fst (fst e); u_base := snd (fst e); u_size := snd e |}) mods) in
+  map (fun a => match frame_offsets Debug (@rev _) a l with Ret m => Some (render_unloaded_btree m) | _ => None end) addrs.
 
 (* L cases: what print_json / print report from the lsb-release, /proc/self/status and /proc/cpuinfo streams *)
 Definition run_linux (lsbdata status cpuinfo : bytes) : (list bytes * bytes) * (Z * option Z) :=
